@@ -309,7 +309,7 @@ class GraphNode(HyperNode):
             return outputs
 
         # Build forward map (original -> renamed) by inverting reverse map
-        forward_map = {v: k for k, v in reverse_map.items()}
+        forward_map = {reverse_map.get(current, current): current for current in self.outputs}
         return {forward_map.get(key, key): value for key, value in outputs.items()}
 
     def has_default_for(self, param: str) -> bool:
